@@ -253,17 +253,21 @@ Definition faker_dt_between (a b num den : Z) : Z :=
   if b - a <=? 1 then rhe ((a * den + num) * US) den
   else rhe ((a * den + (b - a) * num) * US) den.
 
+(* how a bound is presented when it is returned: aware bounds are UTC; for timezone: False
+   (Faker returns a naive UTC value) the bounds are made naive first *)
+Definition bound_zone (tz : option Z) : option Z :=
+  match tz with None => None | Some _ => Some 0 end.
+
 (* min(max(rc, start), end) on datetimes: max returns rc unless start > rc, min returns that
-   unless end is smaller; a clamped result is the bound itself (presented in UTC) *)
+   unless end is smaller; a clamped result is the bound itself *)
 Definition clamp (rc lo hi : Z) (tz : option Z) : Z * option Z :=
-  if rc <? lo then (if hi <? lo then (hi, Some 0) else (lo, Some 0))
-  else if hi <? rc then (hi, Some 0)
+  if rc <? lo then (if hi <? lo then (hi, bound_zone tz) else (lo, bound_zone tz))
+  else if hi <? rc then (hi, bound_zone tz)
   else (rc, tz).
 
 (* template_funcs.py:180-194; tz = offset (seconds) of the result's presentation zone,
-   None for timezone: False.  Result: (instant in microseconds, presentation offset).
-   With timezone: False Faker returns a naive datetime, and comparing it with the aware
-   bounds in min/max raises TypeError (after the draw). *)
+   None for timezone: False (naive UTC result; the bounds are compared as naive UTC readings,
+   i.e. still as instants).  Result: (instant in microseconds, presentation offset). *)
 Definition datetime_between (c : clock) (s e : spec) (tz : option Z) (d : option Z) (den : Z)
   : result (Z * option Z) :=
   do s' <- datetime_fn c s;
@@ -271,10 +275,7 @@ Definition datetime_between (c : clock) (s e : spec) (tz : option Z) (d : option
   if instant e' <? instant s' then Err (DGE "End date is before start date")
   else draw_below d den (fun num =>
          let rc := faker_dt_between (floor_sec (instant s')) (floor_sec (instant e')) num den in
-         match tz with
-         | None => type_error
-         | Some _ => Ok (clamp rc (instant s') (instant e') tz)
-         end).
+         Ok (clamp rc (instant s') (instant e') tz)).
 
 (* ------------------------------------------------------------------ correspondence cases *)
 
@@ -343,13 +344,9 @@ Definition possible (f : fn) (v : value) : bool :=
   | FDateTime c s e tz, VDT us o =>
     match datetime_fn c s, datetime_fn c e with
     | Ok s', Ok e' =>
-      match tz with
-      | None => false                               (* always an error *)
-      | Some _ =>
-        (instant s' <=? us) && (us <=? instant e') &&
-        (option_eqb Z.eqb o tz ||
-         (option_eqb Z.eqb o (Some 0) && ((us =? instant s') || (us =? instant e'))))
-      end
+      (instant s' <=? us) && (us <=? instant e') &&
+      (option_eqb Z.eqb o tz ||
+       (option_eqb Z.eqb o (bound_zone tz) && ((us =? instant s') || (us =? instant e'))))
     | _, _ => false
     end
   | _, _ => false
